@@ -228,6 +228,42 @@ def timers(prog, rep, ver, mod):
     sets = [bi for bi, t in stb.calls() if (t.get("callee") or "").endswith("TimeoutExt>::set") or (t.get("nf") or "").endswith("TimeoutExt::set")]
     ok = bool(sets) and _must_pass(stb, sets, stb.return_blocks())
     rep.ob(rule, "%s | start_timeout sets next_send" % ver, ok, "start_timeout calls next_send.set(..) on every path", stb.loc())
+    # (a') a timer has triggered when its deadline is not after the current time (`deadline <= now`): the application is told
+    # to tick *at* the deadline (needs_tick), so `<` would never fire there and the endpoint would spin without progress
+    from ..bits import BitEval, Unsupported
+    lv = [b_ for k_, b_ in prog.bodies.items() if k_.endswith("TimeoutExt>::has_triggered_level") and k_.startswith("<" + mod.split("::")[0]) and (mod + "::") in k_]
+    if not lv:
+        lv = [b_ for k_, b_ in prog.bodies.items() if "has_triggered_level" in k_ and "closure" not in k_ and (mod + "::") in k_]
+    if not lv:
+        raise AnchorLost("%s: TimeoutExt::has_triggered_level not found" % ver)
+    hb = lv[0]
+    hir = IR(hb)
+    be = BitEval(prog)
+    okl = False
+    for bi, t in hb.calls():
+        if (t.get("callee") or "") == "std::option::Option::map":
+            e = hir.call_expr(bi, t)
+            cl = [x for x in walk(e) if isinstance(x, tuple) and x and x[0] == "agg" and x[1] == "closure"]
+            if cl:
+                try:
+                    ce, rb = be.ret_expr(cl[0][2])
+                except Unsupported:
+                    continue
+                if ce[0] == "bin" and ce[1] in ("Le", "Ge", "Lt", "Gt"):
+                    op = ce[1]
+                    now_left = "time(" in show(strip_sites(ce[2])) or "Callback" in show(strip_sites(ce[2]))
+                    if now_left:
+                        op = {"Le": "Ge", "Ge": "Le", "Lt": "Gt", "Gt": "Lt"}[op]
+                    okl = op == "Le"
+                elif ce[0] == "call" and ce[1].split("::")[-1] in ("le", "ge", "lt", "gt") and len(ce[2]) == 2:
+                    op = {"le": "Le", "ge": "Ge", "lt": "Lt", "gt": "Gt"}[ce[1].split("::")[-1]]
+                    a0 = show(strip_sites(ce[2][0]))
+                    if "time(" in a0 or "Callback" in a0:
+                        op = {"Le": "Ge", "Ge": "Le", "Lt": "Gt", "Gt": "Lt"}[op]
+                    okl = op == "Le"
+    rep.ob(rule, "%s | a timer has triggered when deadline <= now" % ver, okl,
+           "has_triggered_level = deadline.map(|t| t <= cb.time())" if okl else
+           "has_triggered_level does not fire at the deadline itself: ticking at the time needs_tick() reports makes no progress", hb.loc())
     # (b) resend re-arms every chunk before rebuilding
     r = prog.one(mod + "::Connection::resend")
     rst = [bi for bi, t in r.calls() if (t.get("callee") or "") == mod + "::ResendChunk::start_timeout"]
